@@ -34,6 +34,12 @@ class Known:
   what: str
 
 
+def glob_match(text: str, pattern: str) -> bool:
+  """`*` is the only wildcard (finding keys contain brackets, which fnmatch would read as character classes)"""
+  rx = ".*".join(re.escape(part) for part in pattern.split("*"))
+  return re.fullmatch(rx, text, flags=re.S) is not None
+
+
 def load_known(prop: str) -> List[Known]:
   out = []
   if not os.path.isfile(KNOWN_FILE):
@@ -116,14 +122,17 @@ def finish(o: Outcome) -> int:
   violations = []
   known_hits = []
   for f in o.findings:
-    k = next((k for k in known if fnmatch.fnmatchcase(f.key, k.pattern)), None)
+    k = next((k for k in known if glob_match(f.key, k.pattern)), None)
     if k is not None:
       known_hits.append((f, k))
     else:
       violations.append(f)
   lines = []
+  per_entry = {}
   for f, k in known_hits:
-    lines.append(f"KNOWN-FINDING: property={o.prop} key={f.key} {k.what}")
+    per_entry.setdefault(k.pattern, [k, 0])[1] += 1
+  for pat, (k, n) in per_entry.items():
+    lines.append(f"KNOWN-FINDING: property={o.prop} key={pat} ({n} failing instance{'s' if n != 1 else ''}) {k.what}")
   replay_paths = []
   rdir = os.path.join(VERIF, "replay", o.prop)
   if os.path.isdir(rdir):
@@ -168,12 +177,46 @@ def finish(o: Outcome) -> int:
 # Tier A driver
 
 
+def _start_rewrite_crosscheck():
+  """CPython cross-check of the mechanical rewriting (tools/xcheck_rewrite.py): the repository's unit tests are run on the
+  rewritten modules and, as reference, on the untouched modules under the same interpreter; the sets of failing tests must agree."""
+  env = dict(os.environ)
+  env["PYTHONDONTWRITEBYTECODE"] = "1"
+  script = os.path.join(VERIF, "tools", "xcheck_rewrite.py")
+  return [subprocess.Popen([sys.executable, script] + extra, stdout=subprocess.PIPE, stderr=subprocess.DEVNULL, text=True, env=env)
+          for extra in ([], ["--plain"])]
+
+
+def _finish_rewrite_crosscheck(procs):
+  res = []
+  for p in procs:
+    try:
+      out, _ = p.communicate(timeout=600)
+    except subprocess.TimeoutExpired:
+      p.kill()
+      return {"status": "timeout"}
+    failing, summary = None, ""
+    for ln in out.splitlines():
+      if ln.startswith("FAILING "):
+        failing = set(json.loads(ln[8:]))
+      elif ln.startswith("tests run"):
+        summary = ln
+    res.append((failing, summary))
+  (fa, sa), (fb, sb) = res
+  if fa is None or fb is None:
+    return {"status": "not-run", "rewritten": sa, "untouched": sb}
+  return {"status": "ok" if fa == fb else "differs", "rewritten": sa, "untouched": sb, "differs": sorted(fa ^ fb)}
+
+
 def run_tier_a(prop: str, harnesses, jobs: int = 0):
   """-> (coverage dict, findings, undecided, checker_errors)"""
   from pyvc import harness as H, loader
   t0 = time.time()
+  xc = _start_rewrite_crosscheck()
   reports = H.run_all(harnesses, jobs)
   findings, undecided, errors = [], [], []
+  known = load_known(prop)
+  replayed, reproduced_base = {}, {}
   n_ob = n_dis = 0
   by_backend = {}
   solver_time = 0.0
@@ -216,13 +259,21 @@ def run_tier_a(prop: str, harnesses, jobs: int = 0):
                             "replayer": rep.replayer, "replay_args": rep.replay_args,
                             "functions": [functions.get(fn, fn) for fn in rep.functions]},
                     solver_output=f"{v.backend}: sat; model={v.model}; {v.reason}")
-        if rep.replayer:
+        base = re.sub(r"\[path[0-9]+\]$", "", v.name)
+        is_known = any(glob_match(v.name, k.pattern) for k in known)
+        if rep.replayer and not is_known and replayed.get(base, 0) < 1 and len(replayed) < 12:
+          # one native replay per failing obligation (its other paths carry the solver's model only)
+          replayed[base] = replayed.get(base, 0) + 1
           args = dict(rep.replay_args)
           args["model"] = v.model
           args["obligation"] = v.name
           ok, text = native_replay(rep.replayer, args)
           f.reproduced = bool(ok)
           f.replay["native_output"] = text
+          reproduced_base[base] = f.reproduced
+        elif base in reproduced_base:
+          f.reproduced = reproduced_base[base]
+          f.replay["native_output"] = "same obligation as an already replayed path; see that replay file"
         findings.append(f)
       else:
         undecided.append(f"obligation={v.name} reason=solver-unknown:{v.reason[:200]}")
@@ -233,6 +284,9 @@ def run_tier_a(prop: str, harnesses, jobs: int = 0):
       errors.append(f"harness={rep.name} vacuous: no path end is satisfiable ({rep.paths} paths)")
   if n_ob == 0 and not errors:
     errors.append("zero obligations generated")
+  xres = _finish_rewrite_crosscheck(xc)
+  if xres.get("differs"):
+    errors.append(f"rewrite cross-check: tests behave differently on the rewritten modules: {xres['differs'][:5]}")
   cov = {
     "obligations": n_ob, "discharged": n_dis,
     "checker_cmd": f"python3-vt {VERIF}/check.py {prop} (pyvc: real source of /repo re-read, rewritten mechanically and executed symbolically; VCs by z3 5.1 / cvc5 1.4)",
@@ -240,7 +294,7 @@ def run_tier_a(prop: str, harnesses, jobs: int = 0):
     "harnesses": len(reports), "paths": sum(r.paths for r in reports),
     "by_backend": by_backend, "solver_time_s": round(solver_time, 2), "explore_time_s": round(sum(r.explore_s for r in reports), 2),
     "reachability_probes": cover_total, "reachable": cover_ok,
-    "samples": samples, "rewrites_applied_to_source": loader.REWRITES,
+    "samples": samples, "rewrites_applied_to_source": loader.REWRITES, "rewrite_crosscheck": xres,
     "tier_a_wall_s": round(time.time() - t0, 2),
   }
   return cov, findings, undecided, errors
